@@ -4,7 +4,7 @@ use vespertide_core::{ColumnDef, TableDef};
 
 use super::helpers::{
     build_sea_column_def_with_table, build_sqlite_temp_table_create, convert_default_for_backend,
-    normalize_fill_with, recreate_indexes_after_rebuild,
+    normalize_fill_with, recreate_indexes_after_rebuild, restate_mysql_column_attributes,
 };
 use super::rename_table::build_rename_table;
 use super::types::{BuiltQuery, DatabaseBackend, RawSql};
@@ -68,7 +68,8 @@ pub fn build_modify_column_nullable(
             };
 
             // Build sea-query ColumnDef with all properties (type, nullable, default)
-            let sea_col = build_sea_column_def_with_table(backend, table, &modified_col_def);
+            let mut sea_col = build_sea_column_def_with_table(backend, table, &modified_col_def);
+            restate_mysql_column_attributes(&mut sea_col, table_def, &modified_col_def);
 
             let stmt = Table::alter()
                 .table(Alias::new(table))
